@@ -149,7 +149,20 @@ var profJournal = register(&Profile{
 	Oracles: []Oracle{{Name: "journal", Before: beforeJournal, After: oracleJournal}},
 })
 
-var journalWeights = Weights{"write-new": 14, "modify": 10, "add": 18, "commit": 22, "switch": 8, "switch-c": 6, "reset": 12, "reset-invalid": 2,
+func init() {
+	ops = append(ops, opGen{"identity-hostile", always, func(g *G) Step {
+		// the identity is written into every journal line in front of the tab that ends it
+		v := g.Pick([]string{"Tab\tName", "a\tcommit: b", "x\t", "commit: x", "Colon: Name", "reset: moving to HEAD@{1}", "Name  Two", "0000000000000000000000000000000000000000 x",
+			"a > b", "x> y", "1700000000 +0900", "é日本", "checkout: moving from a to b"}, "hostileIdentity")
+		args := []string{"config"}
+		if g.Bool("global") {
+			args = append(args, "--global")
+		}
+		return goit(append(args, "user.name", v)...)
+	}})
+}
+
+var journalWeights = Weights{"identity-hostile": 3, "write-new": 14, "modify": 10, "add": 18, "commit": 22, "switch": 8, "switch-c": 6, "reset": 12, "reset-invalid": 2,
 	"branch": 4, "branch-r": 5, "branch-d": 4, "tz": 3, "rm": 2}
 
 // ---------------------------------------------------------------- C14
